@@ -24,6 +24,13 @@ OPTS = [
 ]
 
 
+# exception names used only to TAG cases for --focus (an unlisted name matches no tag, then std_run runs every case)
+EXCS = ("ZeroDivisionError", "TokenError", "DefinitionSyntaxError", "AssertionError", "UnexpectedToken", "UnexpectedCharacters", "UnexpectedEOF",
+        "StateNotFoundInComponent", "ComponentNotCompleteError", "MissingSymbolError", "DuplicateSymbolError", "DimensionalityError", "OverflowError",
+        "ValueError", "TypeError", "KeyError", "AttributeError", "RecursionError", "UndefinedUnitError", "CycleError", "IndexError", "SyntaxError",
+        "MemoryError", "OffsetUnitCalculusError", "NameError", "UnexpectedInput")
+
+
 def model_opts(i: int) -> dict:
     return dict(OPTS[i % len(OPTS)])
 
@@ -152,12 +159,13 @@ def insert_assign(items, comps, line: str) -> list[dict]:
 # reference reading
 # --------------------------------------------------------------------------------------
 def ref_view(text: str) -> dict:
-    """reference definitions with component membership: what a permutation / inert edit must preserve"""
+    """reference definitions (parsed expressions, so layout inside an expression does not count) with component
+    membership: what a permutation / inert edit must preserve"""
     r = mg.RefModel(text)
     return {
-        "states": sorted((d.name, d.expr_text, list(d.comps)) for d in r.states.values()),
-        "params": sorted((d.name, d.expr_text, list(d.comps)) for d in r.params.values()),
-        "assigns": sorted((a.name, a.expr_text, list(a.comps)) for a in r.assigns.values()),
+        "states": sorted((d.name, str(mg.parse_expr(d.expr_text)), list(d.comps)) for d in r.states.values()),
+        "params": sorted((d.name, str(mg.parse_expr(d.expr_text)), list(d.comps)) for d in r.params.values()),
+        "assigns": sorted((a.name, str(a.ast), list(a.comps)) for a in r.assigns.values()),
     }
 
 
